@@ -27,7 +27,7 @@ let parse_step step =
   | ["Z"] -> PSetOther
   | ["G"] | ["GT"] -> PGet
   | ["Q"] | ["QT"] -> PIsSet
-  | [("I" | "T"); kind; arg; key; tags] ->
+  | [("I" | "T" | "U"); kind; arg; key; tags] ->
     PInvoke { i_macro = parse_macro kind; i_key = unhex0 key; i_arg = parse_arg arg; i_tags = parse_tags tags }
   | _ -> failwith ("bad step " ^ step)
 
